@@ -294,7 +294,8 @@ class Report:
 # ------------------------------------------------------------------------------------------------
 # token-strip diff
 
-_TOKEN_RE = re.compile(rb"\[ref: [0-9]+\] |ref = [0-9]+[;,] ")
+# (IDs above i32::MAX are written as `ref = Nu32`: a bare literal that large does not compile as a key-value - fix 4 of round 8, DESIGN section 11)
+_TOKEN_RE = re.compile(rb"\[ref: [0-9]+\] |ref = [0-9]+(?:u32)?[;,] ")
 
 
 def token_strip(old, new):
